@@ -97,7 +97,10 @@ pub fn judge(ctx: &mut Ctx, attr: u16, value: &[u8], secret: &[u8], rv: [u8; 4],
             false
         }
     };
-    match exec::reveal(exec::hidden_exact(attr, value), secret, rv) {
+    // the value vector has exact capacity in half of the cases and spare capacity in the others:
+    // only its length may matter
+    let hv = if (value.len() + secret.len()) % 2 == 0 { exec::hidden_exact(attr, value) } else { exec::hidden_spare(attr, value, 16 * (1 + value.len() % 5)) };
+    match exec::reveal(hv, secret, rv) {
         Out::Ok(a) => {
             ctx.rep.bucket("reveal.ok");
             if must_err {
